@@ -280,6 +280,42 @@ def run(tier, seed, replay=None):
         out.extra["glob2_unsupported_patterns"] = {"count": unsup, "of": n_g,
                                                    "why": "bracket text containing a backslash, or exactly '^'"}
 
+        # ---------------------------------------------------- A'. the same correspondence, exhaustively: every pattern of up to
+        # 5 (6) tokens over { a b / * ? [ab] ** } against every text of up to 5 (6) tokens over { a b / } - a wildcard in any
+        # component, one or several "**", with and without the components it would have to cross
+        import itertools as _it
+        ptoks, ttoks = ["a", "b", "/", "*", "?", "[ab]", "**"], ["a", "b", "/"]
+        pmax, tmax = (5, 5) if quick else (6, 6)
+        pats = ["".join(t) for n in range(1, pmax + 1) for t in _it.product(ptoks, repeat=n)]
+        pats = sorted({p for p in pats if "***" not in p and ("*" in p or "?" in p or "[" in p)})
+        texts = sorted({"".join(t) for n in range(0, tmax + 1) for t in _it.product(ttoks, repeat=n)}
+                       | {"".join(t) for n in range(0, tmax + 4) for t in _it.product(["a", "/"], repeat=n)})
+        if quick:
+            pats = [p for i, p in enumerate(pats) if "**" in p or i % 3 == seed % 3]
+        ndiff = 0
+        for i in range(0, len(pats), 40):
+            chunk = pats[i:i + 40]
+            rows = mcall(["glob_matrix", texts, chunk])
+            for p, row in zip(chunk, rows):
+                for t, mv in zip(texts, row):
+                    real = rc.guarded(lambda: C._glob_match(t, p))
+                    real = {True: "1", False: "0"}.get(real, real)
+                    if mv != "unsupported" and mv != real:
+                        ndiff += 1
+                        if ndiff <= 5:
+                            disagree("Glob2.glob_match <-> config._glob_match", {"pattern": p, "text": t}, mv, real)
+                        # the difference as a redirect rule: the rule allows a target its pattern does not match (or the reverse)
+                        if len(out.violations) < 40 and t.startswith("/") is False and "//" not in t and t and not t.endswith("/"):
+                            cfgx = C.parse_config(f"allow-redirect /g/{p}\n")
+                            m = C.match_redirect(f"/g/{t}", cfgx, Path("/"))
+                            fires = m is not None
+                            if fires != (mv == "1"):
+                                out.violations.append({"kind": "glob-level", "what": f"allow-redirect /g/{p} {'allows' if fires else 'does not allow'} the target /g/{t}; "
+                                                       f"with '*', '?' and '[..]' confined to one path component and '**' spanning components it must{'' if mv == '1' else ' not'}",
+                                                       "case": {"pattern": p, "text": t}, "signature_text": f"glob-level pat={p!r} text={t!r}"})
+        out.evaluations += len(pats) * len(texts)
+        out.extra["glob2_exhaustive"] = {"patterns": len(pats), "texts": len(texts), "differences": ndiff}
+
         # ---------------------------------------------------- B. classify, norm, normalize_path
         toks = ["", "~", "~/", "~/x", "~bob", "~bob/x", "$HOME", "$HOME/x", "/", "/x", ".", "..", "./x", "../x", "a/b", "a", "-f",
                 "http://x/y", "a://b", "x:/y", "://", "/a://b", "~/a://b", "a=b", "./", "x/", "//x", "~x/", "é/x", "a b/c"]
